@@ -144,7 +144,14 @@ class Run:
             with warnings.catch_warnings():
                 warnings.simplefilter("ignore")
                 name = f"Stub_{sid}" if (s.get("cls") or s.get("cfg_version")) else "Stub"
-                mock = w.start(name, sim_id=sid, spec=s).M
+                factory = w.start(name, sim_id=sid, spec=s)
+                for meth in s.get("extra_calls", ()):
+                    try:
+                        ret = getattr(factory, meth)(7, key="v")
+                        self.ev("XR", sid, meth, "ok", repr(ret))
+                    except Exception as e:  # noqa: BLE001
+                        self.ev("XR", sid, meth, type(e).__name__, str(e)[:80])
+                mock = factory.M
                 if s.get("ents", 1) == 2:
                     ents[sid], ents2[sid] = mock.create(2)
                 else:
